@@ -183,3 +183,27 @@ def run(ctx):
     from engine.fixture import generic_fixture as _gf
     _gf(ctx, [('IO-COUNT', io_count, 'bad_iocount')])
 
+    ctx.rule('PIPE-SKIP', 'au_read_header consumes everything in front of the audio through psf_binheader_readf (which works on every route) and never repositions with psf_fseek, '
+             'which is a no-op on a pipe: an annotated AU file read from a pipe must start at the same sample as from a file', floor=1)
+    au = prog.fn('au_read_header', 'au.c')
+    sk = list(au.calls('psf_fseek'))
+    jr = [c for c in au.calls('psf_binheader_readf') if 'j' in (au.unwrap(au.args(c)[1]).get('s') or '')]
+    ctx.ob('PIPE-SKIP', 'au_read_header', not sk and bool(jr), au.loc(sk[0]) if sk else au.loc(au.body), '%d psf_fseek call(s), %d skip(s) by reading ("j")%s' % (len(sk), len(jr), '' if not sk and jr else
+           ' — the annotation is skipped by seeking: on a pipe its bytes are decoded as the first samples'), None)
+
+    ctx.rule('OFFSET-ACCUM', 'outside the open functions that establish it (sf_open_fd, psf_open_file), psf->fileoffset is only ever adjusted relatively (`+=`): an absolute store forgets the '
+             'offset at which an embedded file starts', floor=1)
+    from engine.util import assigned_lvalues as _alo
+    nfo = 0
+    for g in sorted(prog.lib_fns(), key=lambda g: (g.file, g.line)):
+        if g.name in ('sf_open_fd', 'psf_open_file'):
+            continue
+        for lv, a, r in _alo(g):
+            if lv != 'psf->fileoffset':
+                continue
+            nfo += 1
+            ok = a['k'] == 'CompoundAssignOperator' and a.get('op') == '+='
+            ctx.ob('OFFSET-ACCUM', '%s#%d' % (g.name, nfo), ok, g.loc(a), '`%s` %s' % (g.s(a)[:70], 'adjusts the offset relatively' if ok else
+                   'stores an absolute value: for a file embedded at offset k > 0 every later psf_ftell / psf_fseek is off by k'), None)
+    ctx.require(nfo >= 1, 'no adjustment of psf->fileoffset outside the open functions found')
+
